@@ -1032,8 +1032,14 @@ func (c *compiler) evalStatement(node ast.Statement) (interface{}, error) {
 	switch t := node.(type) {
 	case *ast.ExpressionStatement:
 		s, err := c.evalExpression(t.Expression)
+		if _, ok := t.Expression.(*ast.HTMLLiteral); ok {
+			// literal text between tags is the only expression
+			// statement that produces output
+			return s, err
+		}
+
 		switch s.(type) {
-		case exitBlockStatment, ast.Printable, template.HTML:
+		case exitBlockStatment, ast.Printable:
 			return s, err
 		}
 
